@@ -1342,6 +1342,7 @@ pub struct ParserState {
     block_unmapped_keys: bool,
     switch_max_key_timing: Cell<u16>,
     multi_action_nest_count: Cell<u16>,
+    action_nest_count: Cell<u16>,
     pctx: ParserContext,
     pub lsp_hints: RefCell<LspHints>,
     a: Arc<Allocations>,
@@ -1373,6 +1374,7 @@ impl Default for ParserState {
             block_unmapped_keys: default_cfg.block_unmapped_keys,
             switch_max_key_timing: Cell::new(0),
             multi_action_nest_count: Cell::new(0),
+            action_nest_count: Cell::new(0),
             lsp_hints: Default::default(),
             a: unsafe { Allocations::new() },
             pctx: ParserContext::default(),
@@ -1624,20 +1626,45 @@ fn read_alias_name_action_pairs<'a>(
 }
 
 /// Parse a `kanata_keyberon::action::Action` from a `SExpr`.
+/// Actions nested more deeply than this are rejected. Parsing recurses once per nesting level,
+/// and nesting through variables is not limited by the nesting of the configuration text.
+const MAX_ACTION_NESTING: u16 = 128;
+
+/// Counts one more level of action nesting while `parse` runs.
+fn parse_nested<T>(
+    expr: &SExpr,
+    s: &ParserState,
+    parse: impl FnOnce() -> Result<T>,
+) -> Result<T> {
+    let depth = s.action_nest_count.get();
+    if depth >= MAX_ACTION_NESTING {
+        bail_expr!(
+            expr,
+            "Actions are nested more than {MAX_ACTION_NESTING} levels deep"
+        );
+    }
+    s.action_nest_count.set(depth + 1);
+    let res = parse();
+    s.action_nest_count.set(depth);
+    res
+}
+
 fn parse_action(expr: &SExpr, s: &ParserState) -> Result<&'static KanataAction> {
-    expr.atom(s.vars())
-        .map(|a| parse_action_atom(&Spanned::new(a.into(), expr.span()), s))
-        .unwrap_or_else(|| {
-            expr.list(s.vars())
-                .map(|l| parse_action_list(l, s))
-                .expect("must be atom or list")
-        })
-        .map_err(|mut e| {
-            if e.span.is_none() {
-                e.span = Some(expr.span())
-            };
-            e
-        })
+    parse_nested(expr, s, || {
+        expr.atom(s.vars())
+            .map(|a| parse_action_atom(&Spanned::new(a.into(), expr.span()), s))
+            .unwrap_or_else(|| {
+                expr.list(s.vars())
+                    .map(|l| parse_action_list(l, s))
+                    .expect("must be atom or list")
+            })
+    })
+    .map_err(|mut e| {
+        if e.span.is_none() {
+            e.span = Some(expr.span())
+        };
+        e
+    })
 }
 
 /// Returns a single custom action in the proper wrapped type.
@@ -2321,7 +2348,14 @@ fn parse_macro_item<'a>(
     Vec<SequenceEvent<'static, &'static &'static [&'static CustomAction]>>,
     &'a [SExpr],
 )> {
-    parse_macro_item_impl(acs, s, MacroNumberParseMode::Delay)
+    let Some(first) = acs.first() else {
+        bail!("{MACRO_ERR}");
+    };
+    // A list within a macro is parsed as a macro of its own, without passing through
+    // `parse_action`.
+    parse_nested(first, s, || {
+        parse_macro_item_impl(acs, s, MacroNumberParseMode::Delay)
+    })
 }
 
 #[allow(clippy::type_complexity)] // return type is not pub
